@@ -147,23 +147,34 @@ class Problem:
     """one planning problem + planner settings; everything needed to rebuild the harness input."""
 
     def __init__(self, kind, lo, hi, pdim, boxes, res, starts, goal, thr, planner, seed, budget, pollcap,
-                 rng=None, interm=None, bias=None, mode="run", trace=0, tag="random", rho=1.0, costthr=None, oneway=None):
+                 rng=None, interm=None, bias=None, mode="run", trace=0, tag="random", rho=1.0, costthr=None, oneway=None,
+                 hist=None, goals2=None):
         self.kind, self.lo, self.hi, self.pdim, self.boxes = kind, list(lo), list(hi), pdim, [tuple(b) for b in boxes]
         self.res, self.starts, self.goal, self.thr = res, [list(s) for s in starts], list(goal), thr
         self.planner, self.seed, self.budget, self.pollcap = planner, seed, budget, pollcap
         self.rng, self.interm, self.bias, self.mode, self.trace, self.tag, self.rho = rng, interm, bias, mode, trace, tag, rho
         self.costthr = costthr
         self.oneway = oneway        # (lo0, lo1, hi0, hi1): motions in -x direction touching this box are invalid
+        self.hist = list(hist) if hist else None    # mode history: the calls made on one RRT object (harness tokens)
+        self.goals2 = [list(g) for g in goals2] if goals2 else []   # further goal states: the goal is a GoalStates
 
     def clone(self, **kw):
         d = dict(kind=self.kind, lo=self.lo, hi=self.hi, pdim=self.pdim, boxes=self.boxes, res=self.res, starts=self.starts,
                  goal=self.goal, thr=self.thr, planner=self.planner, seed=self.seed, budget=self.budget,
                  pollcap=self.pollcap, rng=self.rng, interm=self.interm, bias=self.bias, mode=self.mode, trace=self.trace,
-                 tag=self.tag, rho=self.rho, costthr=self.costthr, oneway=self.oneway)
+                 tag=self.tag, rho=self.rho, costthr=self.costthr, oneway=self.oneway, hist=self.hist, goals2=self.goals2)
         d.update(kw)
         return Problem(**d)
 
     # ---- geometry of the space, recomputed here (independent of OMPL)
+    def all_goals(self):
+        return [self.goal] + self.goals2
+
+    def goal_dist(self, x):
+        """GoalState / GoalStates::distanceGoal recomputed: the minimum over the goal states (None: not elementary)"""
+        ds = [self.dist(x, g) for g in self.all_goals()]
+        return None if any(d is None for d in ds) else min(ds)
+
     def posdim(self):
         return {"rv": len(self.lo), "se2": 2, "se3": 3, "dubins": 2, "dubsym": 2, "rs": 2}[self.kind]
 
@@ -258,7 +269,8 @@ class Problem:
         L = ["planners", self.space_line(), self.boxes_line(), "res " + f2b(self.res)]
         for s in self.starts:
             L.append("start " + " ".join(map(f2b, s)))
-        L += ["goal " + " ".join(map(f2b, self.goal)), "thr " + f2b(self.thr), "planner " + self.planner]
+        L += ["goal " + " ".join(map(f2b, g)) for g in self.all_goals()]
+        L += ["thr " + f2b(self.thr), "planner " + self.planner]
         if self.rng is not None:
             L.append("range " + f2b(self.rng))
         if self.interm is not None:
@@ -269,6 +281,8 @@ class Problem:
             L.append("costthr " + self.costthr)
         if self.oneway is not None:
             L.append("oneway " + " ".join(map(f2b, self.oneway)))
+        if self.hist:
+            L.append("hist " + " ".join(self.hist))
         L += ["seed %d" % self.seed, "budget %d %d" % (self.budget, self.pollcap), "mode " + self.mode,
               "trace %d" % self.trace, "watchdog %d" % WATCHDOG[0], "go"]
         return L
@@ -425,6 +439,38 @@ def gen_adversarial(r, which):
 # callers of the 3-argument checkMotion(s1, s2, lastValid) (grep over src/ompl/geometric/planners): they get many more runs
 # of the short-motion class.  Of these, KPIECE1 and LBKPIECE1 hand it end states nobody validated before; BKPIECE1 and
 # STRIDE sample the end state with a *valid* state sampler, RLRT / BiRLRT use it only in keep-last mode, PDST on long motions.
+def gen_multigoal(r, kind=None):
+    """a GoalStates goal: 2-4 goal states, some of them inside an obstacle, outside the bounds or equal to another one, in
+    random order (so the FIRST state sampleGoal hands out may be unusable).  The path must end at a usable one; the
+    reported difference of an approximate solution is the distance to the NEAREST goal state."""
+    env = gen_env(r, kind or r.choice(["rv2", "rv2", "rv3", "se2"]), nboxes=3 + r.below(5))
+    k = env.kind
+    ext = extent(env)
+
+    def some(what):
+        for _ in range(100):
+            x = rand_state(r, k, env.lo, env.hi)
+            if what == "valid" and env.valid(x):
+                return x
+            if what == "invalid" and env.collides(x):
+                return x
+        x = rand_state(r, k, env.lo, env.hi)
+        if what == "outside":
+            x[r.below(env.posdim())] = env.hi[0] + 0.3 * ext
+        return x
+    goals = [env.goal]
+    for _ in range(1 + r.below(3)):
+        what = r.choice(["valid", "valid", "invalid", "outside", "dup"])
+        goals.append(list(goals[r.below(len(goals))]) if what == "dup" else some(what))
+    for i in range(len(goals) - 1, 0, -1):          # shuffle
+        j = r.below(i + 1)
+        goals[i], goals[j] = goals[j], goals[i]
+    env.goal, env.goals2 = goals[0], goals[1:]
+    env.thr = r.choice([0.0, 0.02, 0.05]) * ext
+    env.tag = "multi-goal"
+    return env
+
+
 THREE_ARG = {"KPIECE1", "BKPIECE1", "LBKPIECE1", "PDST", "RLRT", "BiRLRT", "STRIDE"}
 # evaluation budgets of the short-motion class (tiny range => many nodes; these planners get slow with many nodes)
 SHORT_BUDGET = {"LBTRRT": 4000, "LazyPRM": 8000, "LazyPRMstar": 8000, "LazyLBTRRT": 8000}
@@ -613,6 +659,8 @@ def parse_run(lines):
             R["draws"].append(ln)
         elif k == "L":
             R["L"].append(ln[2:])
+        elif k == "H" and len(t) >= 3:
+            R.setdefault("H", {}).setdefault(int(t[1]), []).append(ln.split(None, 2)[2])
         elif k in ("exception", "exception-setup"):
             R["exception"] = t[1] if len(t) > 1 else "?"
         elif k == "not-applicable":
@@ -764,7 +812,7 @@ def check_solution(p, R, sol, top, fails, obs):
             fails.append((pre + "bounds", "path state %d = %r is outside the space bounds" % (j, x)))
             break
     # (3) goal / approximate bookkeeping
-    gd = p.dist(st[-1], p.goal)
+    gd = p.goal_dist(st[-1])
     if gd is None:
         gd = sol["gdist"]
         obs["goal-distance-from-harness"] = obs.get("goal-distance-from-harness", 0) + 1
@@ -900,7 +948,8 @@ def driver_script(p, R):
     if p.rng is not None:
         d.append("range " + f2b(p.rng))
     d.append("interm %d" % (p.interm or 0))
-    d += ["goal " + " ".join(map(f2b, p.goal)), "thr " + f2b(p.thr)]
+    d += ["goal " + " ".join(map(f2b, g)) for g in p.all_goals()]
+    d.append("thr " + f2b(p.thr))
     for s in p.starts:
         d.append("start " + " ".join(map(f2b, s)))
     d += R["draws"]
@@ -976,6 +1025,307 @@ def lockstep_one(ck, hbin, p):
         if int(R["pdata"]["v"]) > nt:
             what = "getPlannerData reports %s vertices, the tree has %d" % (R["pdata"]["v"], nt)
     return what is None, what, impl, mod, R
+
+
+# ---------------------------------------------------------------------------------- histories of one RRT object (round 10)
+def gen_history(r):
+    """one RRT object + one problem definition driven through a random sequence of calls (Model/RRTHistory.lean `Op`)."""
+    env = gen_env(r, r.choice(["rv2", "rv2", "rv3"]), nboxes=r.below(7))
+    ext = extent(env)
+    d = len(env.lo)
+
+    def some_state(kind):
+        for _ in range(100):
+            x = rand_state(r, "rv", env.lo, env.hi)
+            if kind == "valid" and env.valid(x):
+                return x
+            if kind == "invalid" and env.boxes and env.collides(x):
+                return x
+        if kind == "outside":
+            x = rand_state(r, "rv", env.lo, env.hi)
+            x[r.below(d)] = env.hi[0] + 0.5 * ext
+            return x
+        return rand_state(r, "rv", env.lo, env.hi)
+    first = r.below(6)
+    if first == 0:
+        env.starts = [some_state("outside"), some_state("invalid")]     # first solve: INVALID_START unless one is valid by chance
+    elif first == 1:
+        env.starts = [some_state("invalid"), env.starts[0], some_state("valid")]
+    ops, nsolve = [], 0
+    interm = r.below(3) == 0
+    for _ in range(3 + r.below(9)):
+        k = r.below(15)
+        if k == 5:
+            ops.append("clear")
+        elif k == 6:
+            ops.append("addstart:" + ",".join(map(f2b, some_state(r.choice(["valid", "valid", "valid", "invalid", "outside"])))))
+        elif k == 7:
+            ops.append("range:" + f2b(r.choice([0.0, 1e-17, 0.02 * ext, 0.2 * ext, 2.0 * ext])))
+        elif k == 8:
+            ops.append("thr:" + f2b(r.choice([0.0, 0.02 * ext, 0.1 * ext, 0.5 * ext])))
+        elif k == 9:
+            ops.append("interm:%d" % r.below(2))
+        elif k == 10:
+            ops.append("bias:" + f2b(r.choice([0.0, 0.05, 0.5, 1.0])))
+        elif k == 11:
+            ops.append("setup")
+        elif k == 12:
+            ops.append("clearsol")
+        else:
+            ops.append("solve:%d" % r.choice([0, 1, 5, 40, 150, 400]))
+            nsolve += 1
+    if not ops[-1].startswith("solve"):
+        ops.append("solve:%d" % r.choice([5, 60, 300]))
+    return env.clone(planner="RRT", mode="history", seed=r.below(100000), budget=0, pollcap=0, hist=ops,
+                     rng=r.choice([None, None, 0.0, 0.05 * ext, 0.4 * ext]), interm=(1 if interm else 0),
+                     bias=r.choice([None, 0.05, 0.3, 1.0]), tag="history")
+
+
+def history_driver_script(p, R):
+    d = ["rrt %d" % len(p.lo), "bounds " + " ".join(map(f2b, p.lo)) + " " + " ".join(map(f2b, p.hi)), p.boxes_line(),
+         "res " + f2b(p.res)]
+    if p.rng is not None:
+        d.append("range " + f2b(p.rng))
+    d.append("interm %d" % (p.interm or 0))
+    d += ["goal " + " ".join(map(f2b, p.goal)), "thr " + f2b(p.thr)]
+    for s in p.starts:
+        d.append("start " + " ".join(map(f2b, s)))
+    d.append("hinit")
+    expect = []         # (op index, number of output lines that belong to it)
+    for i, tok in enumerate(p.hist):
+        op, _, arg = tok.partition(":")
+        if op == "solve":
+            d += [l for l in R["H"].get(i, []) if l.startswith("draw ")]
+            d += ["hsolve", "htree", "hpath", "hpdef"]
+        elif op == "clear":
+            d.append("hclear")
+        elif op == "addstart":
+            d.append("haddstart " + " ".join(arg.split(",")))
+        elif op == "range":
+            d.append("hrange " + arg)
+        elif op == "thr":
+            d.append("hthr " + arg)
+        elif op == "interm":
+            d.append("hinterm " + arg)
+        elif op == "bias":
+            pass            # the goal bias only decides where a draw comes from; the draws are recorded
+        elif op == "setup":
+            d.append("hsetup")
+        elif op == "clearsol":
+            d.append("hclearsol")
+    return d
+
+
+def history_oracle(p, R):
+    """the property, evaluated in Python on what the REAL object printed, call by call: every solve of the history must
+    report a real path (start among the valid starts added so far, bounds, vertices, gap / strict form, goal / flag /
+    difference / status agreement under the threshold then in force) and the solution count must move as the status says."""
+    fails, obs = [], {}
+    starts = [list(s) for s in p.starts]
+    thr, interm_now, lvs = p.thr, bool(p.interm), R["lvs"]
+    interm_ever = interm_now      # was the flag on at any time since the tree was last emptied?
+    for i, tok in enumerate(p.hist):
+        op, _, arg = tok.partition(":")
+        if op == "addstart":
+            starts.append([b2f(x) for x in arg.split(",")])
+        elif op == "thr":
+            thr = b2f(arg)
+        elif op == "interm":
+            interm_now = arg == "1"
+            interm_ever = interm_ever or interm_now
+        elif op == "clear":
+            interm_ever = interm_now
+        if op != "solve":
+            continue
+        H = {l.split()[0].split("=")[0]: l for l in R["H"].get(i, []) if not l.startswith("draw ")}
+        if "exception" in H or "status" not in H:
+            fails.append(("history-exception", "call %d (%s): %s" % (i, tok, H.get("exception", "no status line"))))
+            continue
+        st = kv(H["status"].split())
+        pd = kv(H["pdef"].split())
+        status, before, after = st["status"], int(pd["before"]), int(pd["count"])
+        solved = status in SOLUTION
+        obs["history-status:" + status] = obs.get("history-status:" + status, 0) + 1
+        if (st["bool"] == "1") != solved:
+            fails.append(("status-bool", "call %d: status %s casts to %s" % (i, status, st["bool"])))
+        if not solved:
+            if after != before:
+                fails.append(("nonsolution-adds-path", "call %d: status %s but the solution count went from %d to %d" % (i, status, before, after)))
+            continue
+        if after != before + 1 or H.get("path", "path none").startswith("path none"):
+            fails.append(("no-path", "call %d: status %s but the solution count went from %d to %d" % (i, status, before, after)))
+            continue
+        sols = [(x.split(":")[0] == "1", b2f(x.split(":")[1])) for x in pd["sols"].split(",")]
+        approx, diff = sols[before]
+        if (status == "EXACT_SOLUTION") == approx:
+            fails.append(("status-flags", "call %d: status %s but the solution it registered has approximate=%s" % (i, status, approx)))
+        want_flag = all(a for a, _ in sols)
+        if (pd["approx"] == "1") != want_flag:
+            fails.append(("status-flags", "call %d: hasApproximateSolution()=%s with solution flags %s" % (i, pd["approx"], [a for a, _ in sols])))
+        states = parse_states(H["path"].split()[2:])
+        ok_start = any(p.same_state(states[0], s) and p.valid(s) for s in starts)
+        if not ok_start:
+            fails.append(("start", "call %d: first path state %r is not a valid in-bounds start among the %d starts added so far" % (i, states[0], len(starts))))
+        for j, x in enumerate(states):
+            if not p.in_bounds(x):
+                fails.append(("bounds", "call %d: path state %d = %r is outside the space bounds" % (i, j, x)))
+                break
+        gd = p.dist(states[-1], p.goal)
+        if not approx and not gd < thr:
+            fails.append(("goal", "call %d: exact solution ends at goal distance %r, threshold in force %r" % (i, gd, thr)))
+        if approx and not close(diff, gd):
+            fails.append(("difference", "call %d: approximate solution registered difference %r, goal distance at the last state is %r" % (i, diff, gd)))
+        if not approx and diff != 0.0:
+            fails.append(("difference", "call %d: exact solution registered difference %r" % (i, diff)))
+        if approx and gd < thr:
+            obs["approximate-flag-on-a-path-that-satisfies-the-goal:RRT-history"] = 1
+        dists = [p.dist(states[j], states[j + 1]) for j in range(len(states) - 1)]
+        bad = None
+        for j, x in enumerate(states):
+            if not p.valid(x):
+                bad = ("vertex", "call %d: path state %d = %r is invalid" % (i, j, x))
+                break
+        if bad is None and not interm_ever:
+            for j in range(len(states) - 1):
+                n = int(math.ceil(dists[j] / lvs))
+                for q in range(1, n):
+                    t = float(q) / float(n)
+                    x = [states[j][c] + (states[j + 1][c] - states[j][c]) * t for c in range(len(states[j]))]
+                    if not p.valid(x):
+                        bad = ("strict", "call %d: subdivision point %d/%d of edge %d (%r -> %r) is invalid" % (i, q, n, j, states[j], states[j + 1]))
+                        break
+                if bad:
+                    break
+        if bad:
+            fails.append(bad)
+        if p.boxes:
+            g2, w2 = longest_invalid_exact(p, states, dists)
+            if g2 > 2.0 * lvs * (1 + 1e-9):
+                fails.append(("gap", "call %d: invalid stretch of length %r (%.2f x resolution length) on edge %s" % (i, g2, g2 / lvs, w2)))
+        obs["history-paths-checked"] = obs.get("history-paths-checked", 0) + 1
+    return fails, obs
+
+
+def history_one(ck, hbin, p):
+    """returns (what or None, impl lines, model lines, R, oracle fails, observations)"""
+    R = run_problem(ck, hbin, p)
+    if not R.get("done") or R.get("rc") != 0 or R.get("exception") or R.get("badop"):
+        return "harness failed: rc=%s %s %s %s" % (R.get("rc"), R.get("exception"), R.get("badop"), R.get("stderr", "")[-300:]), [], [], R, [], {}
+    fails, obs = history_oracle(p, R)
+    ds = history_driver_script(p, R)
+    model, rc, err = ck.run_bin(ck.driver(DRIVER), ds)
+    if rc != 0 or model is None or any(m == "bad-op" for m in model):
+        return "driver failed rc=%s" % rc, [], model or [], R, fails, obs
+    out = [m for m in model if m != "ok"]
+    impl, mod, what = [], [], None
+    k = 0
+    for i, tok in enumerate(p.hist):
+        if not tok.startswith("solve"):
+            continue
+        H = {l.split()[0].split("=")[0]: l for l in R["H"].get(i, []) if not l.startswith("draw ")}
+        if k + 4 > len(out):
+            what = "driver produced too few lines"
+            break
+        m = out[k:k + 4]
+        k += 4
+        d = kv(m[0].split())
+        misc = kv(H.get("misc", "").split())
+        pdl = kv(H.get("pdef", "").split())
+        I = [H.get("status", ""), "nstart=%s lgm=%s range=%s interm=%s thr=%s" % tuple(misc.get(x) for x in ("nstart", "lgm", "range", "interm", "thr")),
+             H.get("tree", ""), H.get("path", ""),
+             "pdef count=%s approx=%s diff=%s sols=%s" % tuple(pdl.get(x) for x in ("count", "approx", "diff", "sols"))]
+        M = ["status=%s bool=%s added=%s" % (d["status"], d["bool"], d["added"]),
+             "nstart=%s lgm=%s range=%s interm=%s thr=%s" % tuple(d.get(x) for x in ("nstart", "lgm", "range", "interm", "thr")),
+             m[1], m[2], m[3]]
+        impl += I
+        mod += M
+        if what is None:
+            if d["unused"] != "0":
+                what = "call %d (%s): model stopped early, %s recorded draws unused" % (i, tok, d["unused"])
+            else:
+                for name, a, b in zip(["status", "counters / parameters", "tree", "path", "problem definition"], I, M):
+                    if a != b:
+                        what = "call %d (%s): %s differs" % (i, tok, name)
+                        break
+    return what, impl, mod, R, fails, obs
+
+
+def history_scale(p, mult):
+    ops = []
+    for t in p.hist:
+        if t.startswith("solve:"):
+            ops.append("solve:%d" % min(4000, max(int(t[6:]), 5) * mult))
+        else:
+            ops.append(t)
+    return p.clone(hist=ops)
+
+
+def history_report_fail(ck, hbin, p, fails):
+    """shrink the call sequence (keeping the first failing clause) and report it with the concrete input"""
+    clause = fails[0][0]
+
+    def still(ops):
+        q = p.clone(hist=ops)
+        R = run_problem(ck, hbin, q)
+        if not R.get("done") or R.get("rc") != 0:
+            return False
+        f, _ = history_oracle(q, R)
+        return any(x[0] == clause for x in f)
+    ops = core.ddmin(p.hist, still, max_tests=60) if len(p.hist) > 1 else p.hist
+    q = p.clone(hist=ops)
+    R = run_problem(ck, hbin, q)
+    f = [x for x in history_oracle(q, R)[0] if x[0] == clause] if R.get("done") else []
+    if not f:
+        q, f = p, fails
+    rec = {"engine": "planners", "planner": "RRT", "clause": f[0][0], "class": "history", "space": p.kind,
+           "interm": p.interm or 0, "what": "%s (history %s): %s" % (f[0][0], " ".join(q.hist), f[0][1])}
+    new = ck.report(rec, script=q.script(), expected="pathIsReal for every solve() of the history: clause '%s' holds" % f[0][0],
+                    observed={"history": q.hist, "detail": f[0][1]}, engine="planners")
+    if new:
+        ck.log("VIOLATION RRT %s [history %s seed=%d]: %s" % (f[0][0], " ".join(q.hist), p.seed, f[0][1][:200]))
+
+
+def history_process(ck, hbin, hjobs, hres):
+    nbad = 0
+    for p, (what, impl, mod, R, fails, obs) in zip(hjobs, hres):
+        ck.traces_validated += 1
+        nsol = obs.get("history-paths-checked", 0)
+        ck.case(p.key(), nsol >= 2)
+        ck.count("history-runs")
+        ck.count("history-calls", len(p.hist))
+        for t in p.hist:
+            ck.count("history-op:" + t.split(":")[0])
+        for a, b in zip(p.hist, p.hist[1:]):
+            if a.startswith("solve") and b.startswith("solve"):
+                ck.count("history:solve-after-solve-on-the-same-tree")
+            if a == "clear" and b.startswith("solve"):
+                ck.count("history:solve-after-clear")
+        for k, v in obs.items():
+            ck.count("obs:" + k, v if isinstance(v, int) else 1)
+        if fails:
+            history_report_fail(ck, hbin, p, fails)
+            continue
+        if what is None:
+            continue
+        nbad += 1
+        ck.disagreements += 1
+        ck.log("history lock-step disagreement (%s) seed=%d history=%s" % (what, p.seed, " ".join(p.hist)))
+        if nbad > 3:
+            continue
+        found = False
+        for mult in (1, 4, 16):
+            q = history_scale(p, mult)
+            R2 = run_problem(ck, hbin, q)
+            if R2.get("done") and R2.get("rc") == 0:
+                f2, _ = history_oracle(q, R2)
+                if f2:
+                    history_report_fail(ck, hbin, q, f2)
+                    found = True
+                    break
+        if not found:
+            ck.report({"engine": "rrt", "what": "model/implementation disagreement on a history: " + str(what)}, script=p.script(),
+                      expected=[m[:2000] for m in mod], observed=[m[:2000] for m in impl], found_input=False, engine="rrt",
+                      obligation="correspondence RRT.cpp (object reused across calls) vs OmplModel.Model.RRTHistory (lock-step: %s)" % what)
 
 
 # ---------------------------------------------------------------------------------- judging a run
@@ -1103,7 +1453,10 @@ def problem_from_script(lines):
         elif t[0] == "start":
             kw["starts"].append([b2f(x) for x in t[1:]])
         elif t[0] == "goal":
-            kw["goal"] = [b2f(x) for x in t[1:]]
+            if not kw["goal"]:
+                kw["goal"] = [b2f(x) for x in t[1:]]
+            else:
+                kw.setdefault("goals2", []).append([b2f(x) for x in t[1:]])
         elif t[0] == "thr":
             kw["thr"] = b2f(t[1])
         elif t[0] == "planner":
@@ -1118,6 +1471,8 @@ def problem_from_script(lines):
             kw["costthr"] = t[1]
         elif t[0] == "oneway":
             kw["oneway"] = [b2f(x) for x in t[1:5]]
+        elif t[0] == "hist":
+            kw["hist"] = t[1:]
         elif t[0] == "seed":
             kw["seed"] = int(t[1])
         elif t[0] == "budget":
@@ -1158,7 +1513,7 @@ def build_attack_boxes(p, R, T, edge, t0, t1, d, lvs):
     if seg2 <= 0.0:
         return None
     dmin = float("inf")
-    pts = [x for _, x in T] + p.starts + [p.goal]
+    pts = [x for _, x in T] + p.starts + p.all_goals()
     for x in pts:
         q = x[:p.pdim]
         w = sum((q[i] - P0[i]) * seg[i] for i in range(p.pdim)) / seg2
@@ -1267,6 +1622,12 @@ def plan_quick(ck, names):
             budget = 600 if which == "goal-in-obstacle" else r.choice([500, 5000])
             jobs.append(adv.clone(planner=name, seed=r.below(1000), budget=budget,
                                   pollcap=pollcap_for(name, budget, which)))
+        if name not in EXTRA:
+            rg = ck.rng.fork("mg:" + name)
+            for k in range(2):
+                mg = gen_multigoal(rg)
+                budget = rg.choice([600, 4000])
+                jobs.append(mg.clone(planner=name, seed=rg.below(100000), budget=budget, pollcap=pollcap_for(name, budget)))
     return jobs
 
 
@@ -1307,6 +1668,12 @@ def plan_thorough(ck, names):
                 budget = 600 if which == "goal-in-obstacle" else r.choice([500, 5000])
                 jobs.append(adv.clone(planner=name, seed=r.below(100000), budget=budget,
                                       pollcap=pollcap_for(name, budget, which)))
+        if name not in EXTRA and name not in MULTILEVEL:
+            rg = ck.rng.fork("mg:" + name)
+            for k in range(10):
+                mg = gen_multigoal(rg)
+                budget = rg.choice([600, 4000, 8000])
+                jobs.append(mg.clone(planner=name, seed=rg.below(100000), budget=budget, pollcap=pollcap_for(name, budget)))
     return jobs
 
 
@@ -1326,6 +1693,11 @@ def lockstep_jobs(ck, n):
             adv = r.choice(["bad-starts", "zero-threshold", "goal-in-obstacle", "thin-corridor", "start-on-bounds"] +
                            ([] if planner == "LazyPRM" else ["start-is-goal"]))
             env = gen_adversarial(r, adv)
+        if adv is None and i % 5 == 2:
+            mg = gen_multigoal(r, r.choice(["rv2", "rv3"]))      # GoalStates: several goal roots / goal draws
+            env = mg
+            ext = extent(env)
+            adv = "multi-goal"
         iters = r.choice([0, 1, 7, 60, 300, 1500]) if rng != 0.003 * ext else r.choice([60, 300, 600])
         if adv == "goal-in-obstacle" and planner != "RRT":
             iters = min(iters, 60)      # nextGoal(ptc) sleeps 10 ms per waiting turn on an invalid goal
@@ -1335,7 +1707,7 @@ def lockstep_jobs(ck, n):
                               interm=(r.below(2) if planner != "LazyPRM" else None),
                               bias=(r.choice([None, 0.05, 0.3, 0.0, 1.0]) if planner == "RRT" else None),
                               costthr=(r.choice(["inf", "inf", "zero"]) if planner == "LazyPRM" else None),
-                              tag="lockstep"))
+                              tag="lockstep" if adv != "multi-goal" else "lockstep:multi-goal"))
     return jobs
 
 
@@ -1368,12 +1740,19 @@ def run(ck):
     pfut = [ex.submit(run_problem, ck, hbin, p) for p in jobs]
     ljobs = lockstep_jobs(ck, 90 if ck.tier == "quick" else 750) if ck.lean_ok else []
     lfut = [ex.submit(lockstep_one, ck, hbin, p) for p in ljobs]
+    hr = ck.rng.fork("history")
+    hjobs = [gen_history(hr) for _ in range(150 if ck.tier == "quick" else 2500)] if ck.lean_ok else []
+    hfut = [ex.submit(history_one, ck, hbin, p) for p in hjobs]
 
     # ---- corpus first
     for name, lines, tag in corpus():
         p = problem_from_script(lines)
         p.tag = tag
-        if p.mode == "lockstep":
+        if p.mode == "history":
+            ck.count("corpus-history")
+            if ck.lean_ok:
+                history_process(ck, hbin, [p], [history_one(ck, hbin, p)])
+        elif p.mode == "lockstep":
             ok, what, impl, mod, R = lockstep_one(ck, hbin, p)
             ck.traces_validated += 1
             ck.case(p.key(), True)
@@ -1435,6 +1814,10 @@ def run(ck):
                           obligation="correspondence %s.cpp vs OmplModel.Model.%s (lock-step: %s)" % (p.planner, p.planner, what))
             ck.log("lock-step disagreement %s (%s) seed=%d iters=%d interm=%s" % (p.planner, what, p.seed, p.budget, p.interm))
 
+    # ---- (a') histories of one RRT object: lock-step with Model/RRTHistory.lean + the spec oracle call by call
+    if ck.lean_ok:
+        history_process(ck, hbin, hjobs, [f.result() for f in hfut])
+
     # ---- (b) all planners through the spec oracle
     results = [f.result() for f in pfut]
     ex.shutdown()
@@ -1454,6 +1837,20 @@ def replay(ck, data):
     hbin = ck.build_harness("planners", ["planners.cpp"], link_ompl=True)
     p = problem_from_script(data["script"])
     p.tag = (data.get("record") or {}).get("class", "replay")
+    if p.mode == "history":
+        ck.lean_build([DRIVER])
+        what, impl, mod, R, fails, obs = history_one(ck, hbin, p)
+        for a, b in zip(impl, mod):
+            if a != b:
+                print("impl : %s\nmodel: %s" % (a[:400], b[:400]))
+        for f in fails:
+            print("PROPERTY FAILS [%s]: %s" % (f[0], f[1]))
+        if what:
+            print("LOCK-STEP DISAGREEMENT: %s" % what)
+        if fails or what:
+            return 1
+        print("history %s: lock-step agrees and every solve() reports a real path on the current tree" % " ".join(p.hist))
+        return 0
     if p.mode == "lockstep":
         ck.lean_build([DRIVER])
         ok, what, impl, mod, R = lockstep_one(ck, hbin, p)
